@@ -155,29 +155,48 @@ def ob_aspath(a: int, b: int, c: int, d: int) -> bool:
     return roundtrip({'attr': {2: segs}}, asn4)
 
 
+_WK_ITEMS = sorted(WELL_KNOWN_COMMUNITIES.items(), key=lambda kv: kv[1])
+_WK_VALUES = sorted(set(WELL_KNOWN_COMMUNITIES.values()))
+
+
 def _community_text_ok(text, value):
-    """the decoder's text form of a 32-bit community value: 'hi:lo' or an IANA well-known name"""
-    hi, lo = value // 65536, value % 65536
-    if text == '%s:%s' % (hi, lo):
-        return True
-    return isinstance(text, str) and WELL_KNOWN_COMMUNITIES.get(text.upper()) == value
+    """the decoder's text form of a community (hi, lo): 'hi:lo' or an IANA well-known name.  Decided by comparing the
+    two halves with each registered value (a dictionary lookup with a symbolic text key would fork once per name and
+    multiply across the communities of the list; div / mod of a symbolic sum is slow in the solver)"""
+    hi, lo = value
+    for v in _WK_VALUES:
+        if hi == v // 65536 and lo == v % 65536:
+            return isinstance(text, str) and (text.upper() in [n for n, x in _WK_ITEMS if x == v] or
+                                              text == '%s:%s' % (v // 65536, v % 65536))
+    return text == '%s:%s' % (hi, lo)
 
 
 def ob_community(a: int, b: int, c: int, d: int) -> bool:
     """P: n communities; entries 0 and 1 symbolic halves (a:b, c:d), others concrete."""
     assume(0 <= a < 65536 and 0 <= b < 65536)
     comms = ['%s:%s' % (a, b)]
-    values = [a * 65536 + b]
+    values = [(a, b)]
     if P['n'] >= 2:
         assume(0 <= c < 65536 and 0 <= d < 65536)
         in_class(c, P.get('cls_c'))
         in_class(d, P.get('cls_d'))
+        # the well-known names live in 65535:x and 0xFFFF0000-range values: split so that the per-name forks of the two
+        # entries do not multiply
+        mode = P.get('mode')
+        if mode == 'second-plain':
+            assume(c < 65535)
+        elif mode == 'first-plain':
+            assume(a < 65535)
+            assume(c == 65535)
+        elif mode == 'both-reserved':
+            assume(a == 65535)
+            assume(c == 65535)
         comms.append('%s:%s' % (c, d))
-        values.append(c * 65536 + d)
+        values.append((c, d))
     for extra in P.get('more', []):
         comms.append(extra)
         hi, lo = extra.split(':')
-        values.append(int(hi) * 65536 + int(lo))
+        values.append((int(hi), int(lo)))
     raw = Update.construct({'attr': {8: comms}}, False)
     out = Update.parse(None, raw[19:], False)
     if out['sub_error'] is not None or set(out['attr'].keys()) != {8}:
@@ -383,10 +402,9 @@ def obligations(tier, seed):
         out.append(ob('C06/community/n=2/c=%s/d=%s' % (cc, cd), 'ob_community',
                       {'n': 2, 'more': ['65535:65281'], 'cls_c': cc, 'cls_d': cd}, cap=200))
     else:
-        for cc in dc16:
-            for cd in dc16:
-                out.append(ob('C06/community/n=2/c=%s/d=%s' % (cc, cd), 'ob_community',
-                              {'n': 2, 'more': ['65535:65281'], 'cls_c': cc, 'cls_d': cd}, cap=600))
+        for mode in ('second-plain', 'first-plain', 'both-reserved'):
+            out.append(ob('C06/community/n=2/%s' % mode, 'ob_community',
+                          {'n': 2, 'more': ['65535:65281'], 'mode': mode}, cap=900))
     names = sorted(set(['PLANNED_SHUT', 'ACCEPT_OWN', 'ROUTE_FILTER_TRANSLATED_v4', 'ROUTE_FILTER_v4',
                         'ROUTE_FILTER_TRANSLATED_v6', 'ROUTE_FILTER_v6', 'BLACKHOLE', 'NO_EXPORT', 'NO_ADVERTISE',
                         'NO_EXPORT_SUBCONFED', 'NOPEER']))
